@@ -407,7 +407,8 @@ func (self *Resources) format(printer *printer) {
 	}
 }
 
-// formatGB prints a floating point value, without exponential representation,
+// formatGB prints a floating point value, without exponential representation
+// (unless it is too large to be expressed as an int64 number of MB),
 // using the minimum number of decimal digits required such that
 //
 //	formatGB(buf, roundUpTo(gb, 1024))
@@ -426,8 +427,19 @@ func formatGB(buf *strings.Builder, gb float32) {
 		}
 		gb = -gb
 	}
-	mb := int64(gb * 1024)
 	var b [20]byte
+	if gb >= 1<<53 {
+		// The value in MB would overflow an int64.  Such a value has no
+		// fractional part, and may have too many digits for the tokenizer
+		// to accept as an integer, so fall back to the shortest
+		// (exponential) representation which parses to the same value.
+		if _, err := buf.Write(strconv.AppendFloat(
+			b[:0], float64(gb), 'g', -1, 32)); err != nil {
+			panic(err)
+		}
+		return
+	}
+	mb := int64(gb * 1024)
 	if _, err := buf.Write(strconv.AppendInt(b[:0], mb/1024, 10)); err != nil {
 		panic(err)
 	}
